@@ -33,8 +33,9 @@ var sweepDone atomic.Int64
 
 func Spec() *mon.Spec {
 	return &mon.Spec{
-		ID:    "C03",
-		Level: "exploration",
+		ID:      "C03",
+		RuleAdd: "Later additions (rounds 4-17): ErrorParseRTU emitters; acceptance implies CRC on length-changed frames; messages with spare capacity (the bytes behind them compared before and after the call); families m, m+00, m+0000 checksummed one right after the other; first CRC16 calls of a fresh process made concurrently.",
+		Level:   "exploration",
 		Rule: "sweep: every byte string of length 0..3 (2^24+65793 messages) through packet.CRC16, checked against the bit-serial reference, against the one-byte reference step applied to CRC16(prefix), and that 2-byte prefixes reach all 65536 register states (=> every state x byte transition exercised; exhaustive for that space). " +
 			"long: PRNG messages of length 4..70000 (dense at 255..257 and 65535..65537) incl. split/continue check. frames: trailer of every RTU Bytes() of requests (constructors + struct literals), responses, ErrorResponseRTU and ErrorParseRTU (constructed and returned by the RTU request parsers) equals reference CRC low byte first. " +
 			"trailer: for frames the CRC-less parser accepts, all 65536 trailer values: WithCRC parser succeeds iff trailer==CRC, refusal is ErrInvalidCRC. distinct key = (kind, length class or fc, first byte / unit).",
